@@ -31,8 +31,7 @@ ASSUMPTIONS = ['the labelling function is deterministic and is evaluated by the 
                'metadata None and the empty dict are the same observation of "no metadata for this id"',
                "one-to-many 'divide' is compared exactly on the grid 1/(64*lcm(group counts)) (the implementation's "
                'float sums are snapped to that grid when they are within 1e-6 of it)',
-               'a collapse in which no label reaches min_group_size is refused by the constructor (TableException: the '
-               'empty value list has no shape); the oracle accepts that refusal']
+               'tables have at least one id on both axes (collapse of a table with an empty axis is known finding F25)']
 
 AXES = ['observation', 'sample']
 _INFO = {}
@@ -515,11 +514,6 @@ def oracle_collapse(case, obs):
     for n, lab in enumerate(labels):
         groups.setdefault(lab, []).append(n)
     want = {lab: rows for lab, rows in groups.items() if len(rows) >= case['min_group_size']}
-    if not want and obs == ['err', 1]:
-        # no label reaches min_group_size: the code builds a 0 x 0 matrix and the constructor's size
-        # check refuses it (TableException).  The text promises vectors for qualifying labels only;
-        # a refusal is accepted here and documented in docs/C11.md.
-        return []
     if obs[0] != 'ok':
         return ['collapse raised: %s' % obs]
     r = obs[1]
